@@ -1374,4 +1374,58 @@ example :
   · exact ⟨lookup_none_of_noid _ _ (by decide), by decide, by decide, by decide⟩
   · exact ⟨lookup_none_of_noid _ _ (by decide), by decide, by decide, by decide⟩
 
+-- ================================================================ whole histories of submissions
+
+/-- every admitted submission of the history is hash-causal (`Fresh`) at the moment it is admitted -/
+def FreshRun (e : Env) (lh : Int) : List Nat → St → Prop
+  | [], _ => True
+  | i :: rest, s => ((doTx e s lh i).2 = .ok → Fresh e s i) ∧ FreshRun e lh rest (doTx e s lh i).1
+
+/-- **the strong pool invariant holds after every history of submissions** -/
+theorem submitAll_PoolLive (e : Env) (lh : Int) (subs : List Nat) (s : St) (hinv : PoolLive e s)
+    (hf : FreshRun e lh subs s) : PoolLive e (XV.C03.submitAll e lh subs s) := by
+  induction subs generalizing s with
+  | nil => exact hinv
+  | cons i rest ih => exact ih _ (doTx_PoolLive e s lh i hinv hf.1) hf.2
+
+/-- **the pool invariant (conservation included) holds after every history of submissions** -/
+theorem submitAll_PoolInv (e : Env) (lh : Int) (subs : List Nat) (s : St) (hinv : PoolInv e s)
+    (hf : FreshRun e lh subs s) : PoolInv e (XV.C03.submitAll e lh subs s) := by
+  induction subs generalizing s with
+  | nil => exact hinv
+  | cons i rest ih =>
+    refine ih _ ?_ hf.2
+    by_cases hok : (doTx e s lh i).2 = .ok
+    · have hfr := hf.1 hok
+      exact doTx_PoolInv e s lh i hinv (by rw [hfr.idEq]; exact hfr.noRow)
+        (by rw [hfr.idEq]; exact hfr.notCited) (by rw [hfr.idEq]; exact hfr.noSelf) hfr.nonCoinbase
+    · rw [XV.C05.doTx_fail_noop e s lh i hok]; exact hinv
+
+theorem FreshRun.toCausalInsRun {e : Env} {lh : Int} {subs : List Nat} {s : St} (hf : FreshRun e lh subs s) :
+    XV.C03.CausalInsRun e lh subs s := by
+  induction subs generalizing s with
+  | nil => trivial
+  | cons i rest ih =>
+    refine ⟨fun hok => ?_, ih hf.2⟩
+    have hfr := hf.1 hok
+    exact ⟨by rw [hfr.idEq]; exact hfr.notCited, by rw [hfr.idEq]; exact hfr.noSelf⟩
+
+/-- **from a state satisfying `PoolInv`, no history of (hash-causal) submissions produces a double spend**: in the final
+pool every input of a pending transaction is spent, and two distinct pending transactions — at least one admitted during
+the history — have disjoint token-input sets; the final state satisfies `PoolInv` again -/
+theorem PoolInv_no_double_spend (e : Env) (lh : Int) (subs : List Nat) (s : St) (hinv : PoolInv e s)
+    (hf : FreshRun e lh subs s) :
+    PoolInv e (XV.C03.submitAll e lh subs s) ∧
+    ∀ i ∈ (XV.C03.submitAll e lh subs s).pool, ∀ j ∈ (XV.C03.submitAll e lh subs s).pool, i ≠ j →
+      ¬ (i ∈ s.pool ∧ j ∈ s.pool) →
+      ∀ r ∈ (e.tx i).ins, ∀ r' ∈ (e.tx j).ins, (r.tx, r.off) ≠ (r'.tx, r'.off) :=
+  ⟨submitAll_PoolInv e lh subs s hinv hf,
+   (XV.C03.no_double_spend_pool_tokens e lh subs s hinv.insSpent hf.toCausalInsRun).2⟩
+
+/-- under the strong invariant *all* pairs of pending transactions are disjoint, at every time -/
+theorem PoolLive_no_double_spend (e : Env) (s : St) (hinv : PoolLive e s) :
+    ∀ i ∈ s.pool, ∀ j ∈ s.pool, i ≠ j →
+      ∀ r ∈ (e.tx i).ins, ∀ r' ∈ (e.tx j).ins, (r.tx, r.off) ≠ (r'.tx, r'.off) :=
+  hinv.live.disjoint
+
 end XV.C02
